@@ -451,3 +451,21 @@ Proof.
   split; [intros W; apply wellformed_b_spec in W; vm_compute in W; discriminate W|].
   split; [vm_compute; reflexivity|]. eexists. vm_compute. reflexivity.
 Qed.
+
+(* Why [syntactic] is a hypothesis: the structured representation has accounts the parser never
+   produces.  ["Assets"; "A:B"] and ["Assets"; "A"; "B"] have the same name, knut (and the
+   model) identifies accounts by name, the specification by their segments: opening the first
+   and booking on the second is accepted by the checker and is not well-formed. *)
+Definition w_colon : list directive :=
+  let a1 : account := [s_Assets; [65; 58; 66]] in
+  let a2 : account := [s_Assets; [65]; [66]] in
+  [ DOpen (w_d 0) a1; DOpen (w_d 0) w_assets_a;
+    DTxn (mkTxn (w_d 1) [] (pair_build w_assets_a a2 w_chf (mkDec 1 0) dec_nil) None) ].
+
+Lemma syntactic_needed : exists ds, ~ syntactic ds /\ check_model ds = VOk /\ ~ wellformed ds.
+Proof.
+  exists w_colon.
+  split; [intros S; apply syntactic_b_spec in S; vm_compute in S; discriminate S|].
+  split; [vm_compute; reflexivity|].
+  intros W; apply wellformed_b_spec in W; vm_compute in W; discriminate W.
+Qed.
